@@ -48,81 +48,81 @@ func init() {
 			m.unsupported("reflection (reflect.ValueOf)")
 			return nil
 		},
-		"internal/abi.NoEscape":                func(m *Machine, c *frame, fn *ssa.Function, a []value) value { return a[0] },
-		"internal/abi.Escape":                  func(m *Machine, c *frame, fn *ssa.Function, a []value) value { return a[0] },
-		"strings.(*Builder).copyCheck":         inNop,
-		"(*strings.Builder).copyCheck":         inNop,
-		"(*strings.Builder).String":            inBuilderString,
-		"runtime.KeepAlive":                    inNop,
-		"internal/race.Enable":                 inNop,
-		"internal/race.Disable":                inNop,
-		"internal/race.Acquire":                inNop,
-		"internal/race.Release":                inNop,
-		"internal/race.ReleaseMerge":           inNop,
-		"internal/race.ReadRange":              inNop,
-		"internal/race.WriteRange":             inNop,
-		"internal/race.Read":                   inNop,
-		"internal/race.Write":                  inNop,
+		"internal/abi.NoEscape":        func(m *Machine, c *frame, fn *ssa.Function, a []value) value { return a[0] },
+		"internal/abi.Escape":          func(m *Machine, c *frame, fn *ssa.Function, a []value) value { return a[0] },
+		"strings.(*Builder).copyCheck": inNop,
+		"(*strings.Builder).copyCheck": inNop,
+		"(*strings.Builder).String":    inBuilderString,
+		"runtime.KeepAlive":            inNop,
+		"internal/race.Enable":         inNop,
+		"internal/race.Disable":        inNop,
+		"internal/race.Acquire":        inNop,
+		"internal/race.Release":        inNop,
+		"internal/race.ReleaseMerge":   inNop,
+		"internal/race.ReadRange":      inNop,
+		"internal/race.WriteRange":     inNop,
+		"internal/race.Read":           inNop,
+		"internal/race.Write":          inNop,
 
 		// ---- errors / fmt ----
-		"errors.Is":   inErrorsIs,
-		"errors.As":   inErrorsAs,
-		"fmt.Errorf":  inErrorf,
-		"fmt.Sprintf": inSprintf,
-		"fmt.Sprint":  inSprint,
-		"fmt.Sprintln": inSprint,
-		"fmt.Fprintf": inFprintf,
-		"fmt.Fprint":  inFprintf,
-		"fmt.Fprintln": inFprintf,
-		"fmt.Printf":  inFprintf,
-		"fmt.Println": inFprintf,
-		"fmt.Print":   inFprintf,
+		"errors.Is":     inErrorsIs,
+		"errors.As":     inErrorsAs,
+		"fmt.Errorf":    inErrorf,
+		"fmt.Sprintf":   inSprintf,
+		"fmt.Sprint":    inSprint,
+		"fmt.Sprintln":  inSprint,
+		"fmt.Fprintf":   inFprintf,
+		"fmt.Fprint":    inFprintf,
+		"fmt.Fprintln":  inFprintf,
+		"fmt.Printf":    inFprintf,
+		"fmt.Println":   inFprintf,
+		"fmt.Print":     inFprintf,
 		"strconv.Quote": inOpaqueString,
 		// String() methods of address types are formatting (message texts):
 		// opaque.  MarshalText/AppendTo stay real.
-		"(net.IP).String":              inOpaqueString,
-		"(net.IPMask).String":          inOpaqueString,
-		"(*net.IPNet).String":          inOpaqueString,
-		"(net.HardwareAddr).String":    inOpaqueString,
-		"(net/netip.Addr).String":      inOpaqueString,
-		"(net/netip.Prefix).String":    inOpaqueString,
-		"(net/netip.AddrPort).String":  inOpaqueString,
-		"strconv.AppendQuote": nil,
+		"(net.IP).String":             inOpaqueString,
+		"(net.IPMask).String":         inOpaqueString,
+		"(*net.IPNet).String":         inOpaqueString,
+		"(net.HardwareAddr).String":   inOpaqueString,
+		"(net/netip.Addr).String":     inOpaqueString,
+		"(net/netip.Prefix).String":   inOpaqueString,
+		"(net/netip.AddrPort).String": inOpaqueString,
+		"strconv.AppendQuote":         nil,
 
 		// ---- unique ----
 		// unique.Make / Handle.Value are generic: matched by prefix below.
 
-		"maps.clone":            inMapsClone,
+		"maps.clone": inMapsClone,
 		// encoding/json is reflection-driven; the string-token path used by
 		// text marshalers is bridged to the real appendString / unquoteBytes
 		"encoding/json.Marshal":   inJSONMarshal,
 		"encoding/json.Unmarshal": inJSONUnmarshal,
 		// logging: empty bodies
-		"log/slog.Default":                    inSlogDefault,
-		"(*log/slog.Logger).With":             func(m *Machine, c *frame, fn *ssa.Function, a []value) value { return a[0] },
-		"(*log/slog.Logger).WithGroup":        func(m *Machine, c *frame, fn *ssa.Function, a []value) value { return a[0] },
-		"(*log/slog.Logger).Info":             inNop,
-		"(*log/slog.Logger).InfoContext":      inNop,
-		"(*log/slog.Logger).Error":            inNop,
-		"(*log/slog.Logger).ErrorContext":     inNop,
-		"(*log/slog.Logger).Warn":             inNop,
-		"(*log/slog.Logger).WarnContext":      inNop,
-		"(*log/slog.Logger).Debug":            inNop,
-		"(*log/slog.Logger).DebugContext":     inNop,
-		"(*log/slog.Logger).Log":              inNop,
-		"(*log/slog.Logger).LogAttrs":         inNop,
-		"(*log/slog.Logger).Enabled":          func(m *Machine, c *frame, fn *ssa.Function, a []value) value { return m.tt.False },
+		"log/slog.Default":                                              inSlogDefault,
+		"(*log/slog.Logger).With":                                       func(m *Machine, c *frame, fn *ssa.Function, a []value) value { return a[0] },
+		"(*log/slog.Logger).WithGroup":                                  func(m *Machine, c *frame, fn *ssa.Function, a []value) value { return a[0] },
+		"(*log/slog.Logger).Info":                                       inNop,
+		"(*log/slog.Logger).InfoContext":                                inNop,
+		"(*log/slog.Logger).Error":                                      inNop,
+		"(*log/slog.Logger).ErrorContext":                               inNop,
+		"(*log/slog.Logger).Warn":                                       inNop,
+		"(*log/slog.Logger).WarnContext":                                inNop,
+		"(*log/slog.Logger).Debug":                                      inNop,
+		"(*log/slog.Logger).DebugContext":                               inNop,
+		"(*log/slog.Logger).Log":                                        inNop,
+		"(*log/slog.Logger).LogAttrs":                                   inNop,
+		"(*log/slog.Logger).Enabled":                                    func(m *Machine, c *frame, fn *ssa.Function, a []value) value { return m.tt.False },
 		"github.com/AdguardTeam/golibs/logutil/slogutil.PrintRecovered": inNop,
-		"github.com/AdguardTeam/golibs/log.Debug": inNop,
-		"github.com/AdguardTeam/golibs/log.Info":  inNop,
-		"github.com/AdguardTeam/golibs/log.Error": inNop,
-		"github.com/AdguardTeam/golibs/log.Printf": inNop,
+		"github.com/AdguardTeam/golibs/log.Debug":                       inNop,
+		"github.com/AdguardTeam/golibs/log.Info":                        inNop,
+		"github.com/AdguardTeam/golibs/log.Error":                       inNop,
+		"github.com/AdguardTeam/golibs/log.Printf":                      inNop,
 		// context.WithTimeout/WithCancel: the real ones start runtime timers
 		// and goroutines; the stub returns the parent and a no-op cancel
-		"context.WithTimeout":  inCtxWithCancel,
-		"context.WithDeadline": inCtxWithCancel,
-		"context.WithCancel":   inCtxWithCancel,
-		"context.Background":   nil,
+		"context.WithTimeout":   inCtxWithCancel,
+		"context.WithDeadline":  inCtxWithCancel,
+		"context.WithCancel":    inCtxWithCancel,
+		"context.Background":    nil,
 		"slices.overlaps":       inSlicesOverlaps,
 		"unique.Make":           inUniqueMake,
 		"(unique.Handle).Value": inUniqueValue,
@@ -142,12 +142,12 @@ func init() {
 		},
 
 		// ---- runtime bits ----
-		"runtime.Callers": func(m *Machine, c *frame, fn *ssa.Function, a []value) value { return m.intVal(0) },
-		"runtime.GOMAXPROCS": func(m *Machine, c *frame, fn *ssa.Function, a []value) value { return m.intVal(1) },
-		"internal/godebug.New":   nil,
-		"(*internal/godebug.Setting).Value": func(m *Machine, c *frame, fn *ssa.Function, a []value) value { return Str{} },
+		"runtime.Callers":                           func(m *Machine, c *frame, fn *ssa.Function, a []value) value { return m.intVal(0) },
+		"runtime.GOMAXPROCS":                        func(m *Machine, c *frame, fn *ssa.Function, a []value) value { return m.intVal(1) },
+		"internal/godebug.New":                      nil,
+		"(*internal/godebug.Setting).Value":         func(m *Machine, c *frame, fn *ssa.Function, a []value) value { return Str{} },
 		"(*internal/godebug.Setting).IncNonDefault": inNop,
-		"(*internal/godebug.Setting).Name": func(m *Machine, c *frame, fn *ssa.Function, a []value) value { return Str{} },
+		"(*internal/godebug.Setting).Name":          func(m *Machine, c *frame, fn *ssa.Function, a []value) value { return Str{} },
 	}
 	for k, v := range intrinsics {
 		if v == nil {
@@ -495,6 +495,11 @@ func inErrorf(m *Machine, c *frame, fn *ssa.Function, a []value) value {
 func inSprintf(m *Machine, c *frame, fn *ssa.Function, a []value) value { return mkStr(opaqueText) }
 func inSprint(m *Machine, c *frame, fn *ssa.Function, a []value) value  { return mkStr(opaqueText) }
 func inOpaqueString(m *Machine, c *frame, fn *ssa.Function, a []value) value {
+	if m.Opts.RealAddrString && fn.Pkg != nil && fn.Pkg.Pkg.Path() == "net/netip" {
+		// the harness depends on the text (e.g. a codec that formats an
+		// address): run the real formatter
+		return m.callBody(c, fn, a)
+	}
 	return mkStr(opaqueText)
 }
 func inFprintf(m *Machine, c *frame, fn *ssa.Function, a []value) value {
